@@ -22,6 +22,8 @@ for f in FILES:
     out = subprocess.run(["/verif/bin/mutate", "-file", "/repo/" + f, "-list"], capture_output=True, text=True).stdout
     for l in out.splitlines():
         i, line, op, desc = l.split("\t", 3)
+        if os.environ.get("MUT_OPS") and op not in os.environ["MUT_OPS"].split(","):
+            continue
         if (f, int(i)) not in done:
             jobs.put((f, int(i), int(line), op, desc))
 print("jobs:", jobs.qsize(), flush=True)
